@@ -78,6 +78,9 @@ enum Make {
     Ttc(Vec<String>),
     WoffOf(String),
     Woff2Of(String),
+    /// the font as a WOFF2 file with a transformed hmtx table (both side bearing arrays stored) beside a glyf table
+    /// with the null transform
+    Woff2HmtxOf(String),
     /// the font with the glyph `A` rewritten as an accented character ("seac" endchar)
     SeacOf(String),
     /// a font written by the harness (c01_faults/synth.rs), a function of its name
@@ -122,6 +125,10 @@ fn file_bytes(m: &Make) -> Option<Vec<u8>> {
         Make::Woff2Of(r) => {
             let (ver, t) = wrap::sfnt_tables(&std::fs::read(abs(r)).ok()?)?;
             Some(wrap::build_woff2_null(ver, &t))
+        }
+        Make::Woff2HmtxOf(r) => {
+            let (ver, t) = wrap::sfnt_tables(&std::fs::read(abs(r)).ok()?)?;
+            wrap::build_woff2_hmtx(ver, &t, 0)
         }
         Make::SeacOf(r) => wrap::seac_variant(&std::fs::read(abs(r)).ok()?),
         Make::Synth(n) => synth::build(n),
@@ -197,6 +204,14 @@ fn input_specs(tier: &str, seed: u64) -> Vec<InputSpec> {
         out.push(InputSpec { name: format!("woff({})#tables", r), make: Make::WoffTables(Box::new(Make::WoffOf(r.to_string()))) });
         out.push(InputSpec { name: format!("woff2({})", r), make: Make::Woff2Of(r.to_string()) });
         out.push(InputSpec { name: format!("woff2({})#stream", r), make: Make::Woff2Stream(Box::new(Make::Woff2Of(r.to_string()))) });
+    }
+    // WOFF2 transform combinations an encoder does not write: hmtx transformed (version 1, both side bearing arrays stored),
+    // glyf / loca with the null transform; the flag byte of the transformed table is a field of the #stream view, so that
+    // the classes one / dec / inc reach the variants that take side bearings from the glyphs
+    {
+        let r = "fonts/opentype/SFNT-TTF-Composite.ttf";
+        out.push(InputSpec { name: format!("woff2-xhmtx({})", r), make: Make::Woff2HmtxOf(r.to_string()) });
+        out.push(InputSpec { name: format!("woff2-xhmtx({})#stream", r), make: Make::Woff2Stream(Box::new(Make::Woff2HmtxOf(r.to_string()))) });
     }
     // a CFF font with an accented character built by the four-argument endchar: no repository font has one
     out.push(InputSpec { name: "seac(fonts/opentype/SourceCodePro-Regular.otf)".to_string(), make: Make::SeacOf("fonts/opentype/SourceCodePro-Regular.otf".to_string()) });
@@ -421,6 +436,16 @@ fn norm_name(n: &str) -> String {
     t
 }
 
+/// table kinds a harness-built input stands for in the quick tier: the synthesized fonts for theirs, the WOFF2 file with
+/// a transformed hmtx beside an untransformed glyf (its decompressed stream) for hmtx
+fn focus(name: &str) -> &'static [&'static str] {
+    if name.starts_with("woff2-xhmtx(") && name.ends_with("#stream") {
+        &["hmtx"]
+    } else {
+        synth::focus(name)
+    }
+}
+
 /// Quick tier: for every table kind, inputs that between them have every kind of structural
 /// non-value field the walk finds in that table kind anywhere (greedy cover: most uncovered kinds
 /// first, then the smaller file, then the plain one); for the variation tables and CFF2 every
@@ -454,7 +479,7 @@ fn champions(analyses: &[(String, usize, Analysis)]) -> BTreeMap<usize, Champ> {
     for (tbl, inputs) in &per {
         for (i, names) in inputs {
             let name = &analyses[*i].0;
-            if synth::focus(name).contains(&tbl.as_str()) {
+            if focus(name).contains(&tbl.as_str()) {
                 out.entry(*i).or_default().insert(tbl.clone(), names.clone());
                 forced.entry(tbl.clone()).or_default().extend(names.iter().cloned());
             }
@@ -544,6 +569,13 @@ impl<'a> Planner<'a> {
             let c: Vec<usize> = c.into_iter().filter(|&i| faults::has_der(&a.vc, self.an.fields[i].dv)).collect();
             let n = c.len();
             (c, n)
+        } else if a.k == "Overwrite" && faults::is_bit_class(&a.vc) {
+            // a bit class needs a field wide enough to have the bit
+            let n0 = ns;
+            let keep: Vec<bool> = c.iter().map(|&i| faults::has_bit(&a.vc, self.an.fields[i].w)).collect();
+            let n = keep[..n0.min(keep.len())].iter().filter(|k| **k).count();
+            let c: Vec<usize> = c.into_iter().zip(keep).filter(|x| x.1).map(|x| x.0).collect();
+            (c, n)
         } else if a.k == "Overwrite" && faults::is_rel_class(&a.vc) {
             // a relational class needs a field that is an element of an array with a sibling on that side
             let c: Vec<usize> = c.into_iter().filter(|&i| faults::has_sib(&a.vc, self.an.fields[i].prevo, self.an.fields[i].nexto)).collect();
@@ -618,6 +650,10 @@ fn build_plan(tier: &str, seed: u64, name: &str, an: &Analysis, cases: &Cases, c
                     if !trunc && (rel || faults::is_der_class(&a.vc)) {
                         // the directory records of every input are read by the same code: a seeded sample per input
                         sample(c, if quick { 4 } else { 8 }, &[seed, pl.input_hash, ai as u64, 12])
+                    } else if !trunc && faults::is_bit_class(&a.vc) {
+                        // format / flag fields of headers and directories (sfnt version, WOFF2 entry flags: tag index and
+                        // transform version): a seeded sample per input and bit, the inputs between them cover the fields
+                        sample(c, if quick { 2 } else { 8 }, &[seed, pl.input_hash, ai as u64, 13])
                     } else if !trunc {
                         c.to_vec() // every directory / header field, both tiers
                     } else {
